@@ -74,6 +74,15 @@ def obligations(ctx):
                                family="new/delete pairs", timeout=600,
                                desc="heap MODULE filled by the real fill_module_precomp and released by the real delete_module_info (plus the object allocators of the API): "
                                     "no heap object allocated in the harness is live at its end"))
+    # coefficient-space entry points with equal padded strides on exactly-sized buffers (a "same layout" block copy would run sl-N words past the end)
+    for (op, var) in vg.PAIRS:
+        if var != 0:
+            continue
+        for (rsz, asz, bsz) in ((2, 2, 2), (1, 3, 1)):
+            if op in (5, 6):
+                obs.append(vg.vec_ob(op, var, 4, rsz, asz, 0, (3, 3, 3), avx=(rsz + op) % 2, pmode=0, p=5, tag="coeff-eqstride/"))
+            else:
+                obs.append(vg.vec_ob(op, var, 4, rsz, asz if op else 0, bsz if op in (3, 4) else 0, (3, 3, 3), avx=(rsz + op) % 2, tag="coeff-eqstride/"))
     return obs
 
 
